@@ -152,3 +152,47 @@ Theorem C16_uuid_other_forms :
     uuid_parse (to_hex 32 n) = Some n /\ uuid_parse (123 :: uuid_str n ++ [125])%Z = Some n.
 Proof. intros n Hn. split; [exact (uuid_hex_roundtrip n Hn) | exact (uuid_braced_roundtrip n Hn)]. Qed.
 Print Assumptions C16_uuid_other_forms.
+
+(* whatever the model parser answers is a 128-bit value (so the premise of C16_uuid_roundtrip never asks the
+   stdlib for a value no UUID has), and distinct UUIDs have distinct canonical texts *)
+Theorem C16_uuid_parse_range :
+  forall s n, uuid_parse s = Some n -> (0 <= n < 2 ^ 128)%Z.
+Proof. exact uuid_parse_range. Qed.
+Print Assumptions C16_uuid_parse_range.
+
+Theorem C16_uuid_text_injective :
+  forall n m, (0 <= n < 2 ^ 128)%Z -> (0 <= m < 2 ^ 128)%Z -> uuid_str n = uuid_str m -> n = m.
+Proof. exact uuid_str_injective. Qed.
+Print Assumptions C16_uuid_text_injective.
+
+(* ---------- the same for dates: x.isoformat() of every date reads back as the date ----------
+   A date is a valid (year, month, day) triple ([valid_ymd]: 1..9999, 1..12, 1..days of that month, February by the
+   Gregorian leap rule); [date_iso] is date.isoformat ('%04d-%02d-%02d'), [date_parse] is date.fromisoformat
+   restricted to that form, [ymd2ord] is date.toordinal (the model's VDate carries the ordinal).  All three are
+   compared with CPython on every run; the premise is again that the stdlib agrees with the model parser wherever
+   the latter answers. *)
+Theorem C16_date_text_roundtrip :
+  forall y m d, valid_ymd y m d = true -> date_parse (date_iso y m d) = Some (y, m, d).
+Proof. exact date_roundtrip. Qed.
+Print Assumptions C16_date_text_roundtrip.
+
+Theorem C16_date_roundtrip :
+  forall E,
+    (forall s y m d, date_parse s = Some (y, m, d) -> oracle E OkDate (VStr s) = Some (VDate (ymd2ord y m d))) ->
+    forall y m d, valid_ymd y m d = true ->
+    forall fuel md, run E md (S fuel) (Scalar KDate (Some CoDate) [] [] []) (VStr (date_iso y m d)) = OValid (VDate (ymd2ord y m d)).
+Proof.
+  intros E Hext y m d Hv fuel md.
+  apply (roundtrip E KDate CoDate (fun _ => VStr (date_iso y m d)) OkDate (VDate (ymd2ord y m d))).
+  - right. right. left. repeat split.
+  - reflexivity.
+  - apply Hext. apply date_roundtrip. exact Hv.
+Qed.
+Print Assumptions C16_date_roundtrip.
+
+Example C16_date_text_nonvacuous :
+  valid_ymd 2020 2 29 = true /\ valid_ymd 2021 2 29 = false /\ valid_ymd 1900 2 29 = false /\ valid_ymd 2000 2 29 = true /\
+  date_iso 2020 2 29 = [50; 48; 50; 48; 45; 48; 50; 45; 50; 57]%Z /\
+  ymd2ord 1 1 1 = 1%Z /\ ymd2ord 2020 1 1 = 737425%Z /\ ymd2ord 9999 12 31 = 3652059%Z /\
+  date_parse (date_iso 2021 2 29) = None.
+Proof. vm_compute. repeat split. Qed.
